@@ -138,6 +138,7 @@ type runPlan struct {
 	yieldPct   int
 	sleepPct   int
 	postCalls  int
+	holdAt     []int // hold the sequencer mutex for ~1.5 ms once this many calls were made (see lockHold)
 	forceFup   bool // force a reconnect between a follow-up's pre-check and its lock section
 	forceClose bool // force a complete Close() between an emit's pre-check and its lock section
 }
@@ -340,6 +341,12 @@ func makePlan(rng *vrng, profile string) runPlan {
 	p.yieldPct = []int{0, 5, 20, 50, 90}[rng.n(5)]
 	p.sleepPct = []int{0, 2, 10, 30}[rng.n(4)]
 	p.postCalls = rng.n(3)
+	if rng.pct(35) {
+		for i := 0; i < 1+rng.n(3); i++ {
+			p.holdAt = append(p.holdAt, 1+rng.n(total))
+		}
+		sort.Ints(p.holdAt)
+	}
 	p.forceFup = rng.pct(55)
 	p.forceClose = rng.pct(60)
 	return p
@@ -583,6 +590,7 @@ func oneRun(runIdx int, seed uint64, profile string, forceGmp int) runResult {
 	// controller: logical triggers on the number of calls made so far
 	burstEm := r.plan.emitters
 	peerIx := 0
+	holdIx := 0
 	finished := false
 	watchdog := time.After(25 * time.Second)
 	tk := time.NewTicker(50 * time.Microsecond)
@@ -651,6 +659,17 @@ func oneRun(runIdx int, seed uint64, profile string, forceGmp int) runResult {
 					c.peerClose()
 				}
 				peerIx++
+			}
+			if holdIx < len(r.plan.holdAt) && n >= r.plan.holdAt[holdIx] {
+				// lockHold: the harness itself holds the sequencer mutex for > 1 ms while the writer and the
+				// emitters pile up behind it.  sync.Mutex then switches to starvation mode: ownership is handed
+				// over in FIFO order, so an emitter's lock section is placed BETWEEN two consecutive lock
+				// sections of the writer (and vice versa) - the interleaving a split peek/pop would need.
+				// Invisible to the specification: no state changes, hook order is still the lock order.
+				holdIx++
+				cl.seq.Lock()
+				time.Sleep(time.Duration(1200+rng.n(800)) * time.Microsecond)
+				cl.seq.Unlock()
 			}
 			if r.plan.closeAt >= 0 && n >= r.plan.closeAt {
 				doClose()
